@@ -360,6 +360,28 @@ func checkC02(w *World, r *Report) {
 	}
 	r.Check(len(schedW) == 0, "C02.R7", "Inbox.scheduler:writers", "the scheduler of an inbox is fixed at construction", w.fnPos(w.Func("actor", "NewInbox")),
 		fmt.Sprintf("writers: %v", schedW))
+	// ... and a process keeps the inbox it was built with: a worker that is inside the old inbox's loop when the field
+	// is replaced goes on draining it, next to the worker of the new one
+	{
+		procT := w.Named("actor", "process")
+		var inboxW []string
+		for _, fn := range w.Funcs {
+			if !w.isLib(fn) {
+				continue
+			}
+			for _, in := range w.insOf(fn) {
+				if st, ok := in.(*ssa.Store); ok {
+					if fa, ok := st.Addr.(*ssa.FieldAddr); ok && procT != nil && isFieldOf(fa, procT, "inbox") {
+						if _, fresh := fa.X.(*ssa.Alloc); !fresh {
+							inboxW = append(inboxW, fname(fn)+" at "+w.pos(st.Pos()))
+						}
+					}
+				}
+			}
+		}
+		r.Check(len(inboxW) == 0, "C02.R7", "process.inbox:writers", "the inbox of a process is fixed at construction", w.fnPos(w.Func("actor", "NewInbox")),
+			fmt.Sprintf("replaced by %v: two inboxes, two workers, one receiver", inboxW))
+	}
 
 	// R6 / R8 from the typestate engine
 	r.Rule("C02.R8", "the worker loop re-reads the status before every batch (a stopped process gets no further batch); Inbox.Stop stores 'stopped'; the machine starts no goroutine", 4)
@@ -371,7 +393,7 @@ func checkC02(w *World, r *Report) {
 		r.Unknown("C02.R6", "lta", "typestate engine", "-", "actor.process not found")
 		return
 	}
-	lta.export(r, "C02.R6", []string{"delivery-concurrent-with-worker", "inbox-started-after-cleanup", "inbox-reopened-by-worker"}, "no delivery on the spawning goroutine once the inbox is open; no inbox restart after cleanup")
+	lta.export(r, "C02.R6", []string{"delivery-concurrent-with-worker", "inbox-started-after-cleanup", "inbox-reopened-by-worker", "spawn-leaves-inbox-closed"}, "no delivery on the spawning goroutine once the inbox is open; no inbox restart after cleanup")
 }
 
 // checkLoopStatus: the worker loop re-reads the status word before every batch and leaves when
@@ -635,6 +657,13 @@ func checkC03(w *World, r *Report) {
 				pr.lta.export(r, "C03.R7", []string{"spawn-leaves-inbox-closed"}, "a process that finished Start has its inbox open, whatever happened on the way (crash in Initialized/Started, restart)")
 			}
 		}
+	}
+	if r.Prop == "C03" {
+		// accepted messages that wait in the crash buffer (behind a failing message) are handed to the restarted actor
+		r.Rule("C03.R8", "what was accepted and then set aside by a crash is processed after the restart: the crash buffer is neither dropped nor cleared before its replay (C05.R2)", 1)
+		importRules(w, r, checkC05, "C05", "C03.R8", func(o *Obligation) bool {
+			return o.Rule == "C05.R2" && (strings.HasPrefix(o.Key, "C05.R2|restart-buffer-dropped") || strings.HasSuffix(o.Key, ":clears-replayed-buffer") || strings.HasSuffix(o.Key, ":replay-before-inbox"))
+		})
 	}
 	// R6: Len() is what the re-check reads: its accounting must be sound under concurrency
 	if r.Prop == "C03" {
